@@ -60,6 +60,12 @@ CHECKS = {
         note="Partial: pydantic/json/pickle/PyYAML are trusted carriers validated by the round-trip oracle, not modelled; the nested record forms are decided by sampling. Four documented upstream limitations of the string key syntax are listed as known findings (C18-a..d).",
         design="DESIGN.md §5 C18",
     ),
+    "C13": dict(
+        technique="Lean 4 proof (lookup-only dependence of standardize, setdefault-merge invariants of expandDataId by induction over the lookup order) + correspondence of standardize/expandDataId on a populated registry + brute-force consistency oracle",
+        text="standardize_lookup_only (entry order, duplicates and the mapping/kwargs split are irrelevant), standardize_extra_keys_irrelevant, defaults_only_fill, eqv laws, merge_keeps/merge_sound/merge_rejects, expandStep_sound, expand_keeps, expand_records (every record found is reflected exactly in the result), expandStep_rejects (a contradiction with a fetched record is always InconsistentDataIdError) and expandStep_missing are proved in Lean 4 for every universe, record store and input; lookup_order respecting required predecessors comes from C12. The model is compared with DataCoordinate.standardize and Registry.expandDataId on generated mappings/kwargs/defaults (extra, missing, overriding, inconsistent keys, numpy integers) over sampled groups, with a brute-force oracle over the stored records.",
+        note="Trusted: Lean kernel; universe fact extractor; harness; SQLite returning stored records. expand_complete (a consistent input is never refused) is decided by the oracle, not proved.",
+        design="DESIGN.md §5 C13",
+    ),
 }
 
 NOT_YET = {}
